@@ -60,7 +60,7 @@ def std_histories(rng, n, length, mode, names=("a", "b", "é"), special=0.08, wi
             elif k < 0.93:
                 ops.append(op(rng.choice(["paths", "dirs", "files", "all_paths", "all_dirs", "all_files"]), rpath()))
             else:
-                ops.append(op(rng.choice(QUERIES), rpath()))
+                ops.append(op(rng.choice([q for q in QUERIES if q != "owner"]), rpath()))
         hs.append("\t".join(["hist", mode, envspec(MEM_ENV)] + ops))
     return hs
 
@@ -143,4 +143,90 @@ PROPS["C13"] = {
             "results and observed tree; entries: all accessor transcripts over follow / upcast / clone sequences up to length 3; distinct = distinct scripts",
     "trusted": ["tools/translators.py gen_routes (balanced-bracket parser of the wrapper impl blocks; fails closed)", "harness/src/wrap.rs (calls the wrapped backend value by matching on the enum)"],
     "assumptions": ["Rust enum dispatch: a match arm `Vfs::Memfs(x) => x.m(args)` evaluates exactly the call x.m(args) (Wrap/Transparent.v wrap_sem)"],
+}
+
+
+# ---------------------------------------------------------------------------------------------
+# C02: Stdfs and Memfs are interchangeable (same calls, same results, same observed tree)
+import re as _re
+
+
+def backend_canon(t):
+    """what the property compares: success or failure (not the error kind), returned values, the observed tree"""
+    import c_mem
+    fs = c_mem.walk_canon(c_mem.hist_canon(t)).split("\t")
+    out = []
+    for f in fs:
+        if f.startswith("#cwd=") and ";T{" in f:
+            # the working directory is process state, not part of the observed tree (names, kinds, bytes, link targets,
+            # permission bits): once the last call has removed or moved it the two backends name it differently.
+            # cwd() results are compared as returned values wherever a history calls it.
+            f = "#T{" + f.split(";T{", 1)[1]
+        if f.startswith("E:"):
+            f = "E"
+        elif f.startswith("I"):
+            star = f.startswith("I*")
+            items = ["E" if x.startswith("E:") else x for x in f[2 if star else 1:].split(",")]
+            f = ("I*" if star else "I") + ",".join(sorted(items) if star else items)
+        out.append(f)
+    return "\t".join(out)
+
+
+def x_split(out):
+    parts = out.split("\t||\t")
+    if len(parts) < 3:
+        parts = out.split("||")
+    m, s = parts[0].strip("\t"), parts[1].strip("\t")
+    cut = parts[2].strip("\t") if len(parts) > 2 else ""
+    return m, s, cut
+
+
+def x_eq(line, out):
+    if "\t||\t" not in out and "||" not in out:
+        return False
+    m, s, cut = x_split(out)
+    return backend_canon(hash_order_canon(line, m)) == backend_canon(hash_order_canon(line, s))
+
+
+def c02_alphabet(tier):
+    import c_mem
+    muts, qs = c_mem.alphabet(tier)
+    m2, q2 = c_mem.walk_alphabet(tier)
+    bad_m = {op("remove_all", "/")}
+    muts = [x for x in muts + m2 if x not in bad_m and not x.startswith(("chown", "chown_b"))]
+    qs = [x for x in qs + q2 if not x.startswith("owner:")]
+    return muts, qs
+
+
+def c02_streams(tier, rng, ctx):
+    muts, qs = c02_alphabet(tier)
+    depth = 2 if tier == "quick" else 3
+    hs, info = bfs_histories(ctx, tier, depth, 250 if tier == "quick" else 2500, muts=muts, finals=qs, mode="x", tag="c02")
+    if tier == "quick" and len(hs) > 12000:
+        hs = rng.sample(hs, 12000)
+    rnd = std_histories(rng, 3000 if tier == "quick" else 40000, 10, "x")
+    rnd_nolinks = std_histories(rng, 1500 if tier == "quick" else 20000, 14, "x", with_links=False, special=0.15)
+    senv = sandbox_env("c02")
+
+    def nontrivial(l, o):
+        return "\tok" in o or "\tp" in o
+    return [
+        Stream("backends-bfs", "pycheck", hs, impl_env=senv, pycheck=x_eq, nontrivial=nontrivial, exhaustive=True,
+               rule="every history of the model-guided BFS (%s, depth %d) over the C02 alphabet (create, write, append, read, list, traverse, query, chmod, copy, move, remove, symlink, "
+                    "set_cwd; absolute / relative / unclean / ~ / $VAR spellings), run on Memfs and on Stdfs in a sandbox side by side; the history is cut before the first call whose "
+                    "pre-state or arguments are outside the property's domain (evaluated on the Memfs state); success / failure, returned values and the observed tree must agree" % (info, depth)),
+        Stream("backends-random", "pycheck", rnd, impl_env=senv, pycheck=x_eq, nontrivial=nontrivial,
+               rule="random histories (<= 10 calls, three names incl. multi-byte, depth <= 3, links) side by side"),
+        Stream("backends-random-nolinks", "pycheck", rnd_nolinks, impl_env=senv, pycheck=x_eq, nontrivial=nontrivial,
+               rule="longer random histories without links (always inside the domain), more special spellings"),
+    ]
+
+
+PROPS["C02"] = {
+    "streams": c02_streams,
+    "rule": "Memfs and Stdfs side by side in one process per shard on the same histories (BFS over a bounded namespace + random), compared call by call on success / failure and returned values "
+            "and, at the end, on the tree an independent std::fs observer reads back (names, kinds, bytes, link targets, permission bits) against the same view of the Memfs snapshot",
+    "trusted": ["harness/src/stdhist.rs: sandbox re-rooting of absolute arguments and results, the std::fs observer, the domain predicate evaluated on the Memfs snapshot hook"],
+    "assumptions": ["the checks run as root (no permission enforcement on the real filesystem, as in the brief's sandbox)", "owner queries and chown are not compared (Memfs starts every entry at uid/gid 1000)",
+                    "error kinds are not compared (the property speaks of success or failure)"],
 }
